@@ -10,14 +10,20 @@ pub mod c03;
 pub mod variant;
 pub mod c04;
 pub mod c05;
+pub mod c06;
+pub mod c07;
+pub mod c08;
+pub mod c09;
 pub mod c10;
 pub mod c11;
 pub mod c12;
 pub mod c13;
+pub mod c14;
 pub mod c15;
 pub mod c16;
 pub mod dbgcommon;
 pub mod c17;
+pub mod c18;
 pub mod c19;
 pub mod c20;
 
@@ -28,13 +34,19 @@ pub fn run(ctx: &Ctx) -> i32 {
         "C03" => c03::run(ctx),
         "C04" => c04::run(ctx),
         "C05" => c05::run(ctx),
+        "C06" => c06::run(ctx),
+        "C07" => c07::run(ctx),
+        "C08" => c08::run(ctx),
+        "C09" => c09::run(ctx),
         "C10" => c10::run(ctx),
         "C11" => c11::run(ctx),
         "C12" => c12::run(ctx),
         "C13" => c13::run(ctx),
+        "C14" => c14::run(ctx),
         "C15" => c15::run(ctx),
         "C16" => c16::run(ctx),
         "C17" => c17::run(ctx),
+        "C18" => c18::run(ctx),
         "C19" => c19::run(ctx),
         "C20" => c20::run(ctx),
         other => {
@@ -63,13 +75,19 @@ pub fn replay(ctx: &Ctx, path: &Path) -> i32 {
             "C03" => c03::replay(ctx, &case),
             "C04" => c04::replay(ctx, &case),
             "C05" => c05::replay(ctx, &case),
+            "C06" => c06::replay(ctx, &case),
+            "C07" => c07::replay(ctx, &case),
+            "C08" => c08::replay(ctx, &case),
+            "C09" => c09::replay(ctx, &case),
             "C10" => c10::replay(ctx, &case),
             "C11" => c11::replay(ctx, &case),
             "C12" => c12::replay(ctx, &case),
             "C13" => c13::replay(ctx, &case),
+            "C14" => c14::replay(ctx, &case),
             "C15" => c15::replay(ctx, &case),
             "C16" => c16::replay(ctx, &case),
             "C17" => c17::replay(ctx, &case),
+            "C18" => c18::replay(ctx, &case),
             "C19" => c19::replay(ctx, &case),
             "C20" => c20::replay(ctx, &case),
             _ => None,
